@@ -20,7 +20,7 @@ BAD_FILES = {
 def offending_static():
     """the same rule as Log/LogModel.v evaluated on out/sites.json, for the report only"""
     try:
-        sites = json.load(open(os.path.join(OUT, "sites.json")))
+        sites = json.load(open(os.path.join(VERIF, "out", "sites.json")))       # written there by tools/gen_sites.py
         src = open(os.path.join(COQ, "Log", "LogModel.v")).read()
         ex = set(re.findall(r'\("([^"]+)",\s*"([^"]+)",\s*\w+\)', src))
         return [s for s in sites if not s["stream"].startswith("handle:") and not s["noreturn"] and (s.get("base", s["func"]), s["callee"]) not in ex]
@@ -55,6 +55,17 @@ def main():
                 scr += "\n".join(extra[:5]) + "\n"
                 cases.append((cid, scr))
                 meta[cid] = "solve+errors"
+        # a second library session in the same process (QSexactClear / QSexactStart): the host registered its handler once,
+        # at start-up, and it must still be the one that receives everything
+        for li, lp in enumerate(lps[:10 if ck.thorough() else 4]):
+            cfg = configs(ck.rng, lp, 1)[0]
+            cid = "r%d" % li
+            n, m = len(lp["cols"]), len(lp["rows"])
+            scr = case_script(cid, lp, cfg).replace("\nSOLVE", "\nPARAM 4 1\nSOLVE", 1)
+            body = scr.split("\n", 1)[1]
+            scr = ("CASE %s\nRESTART\n" % cid) + body + "CHG coef %d 0 1\nCHG sense 0 Q\nREADPROB missing_%s LP\nWRITEPROB /nonexistent_dir/x.lp LP\nRESTART\n" % (m + 3, cid) + body
+            cases.append((cid, scr))
+            meta[cid] = "second-session"
         for n in BAD_FILES:
             for ty in ("LP", "MPS"):
                 cid = "f_%s_%s" % (n, ty)
@@ -117,12 +128,12 @@ def main():
                      "static output-site theorem broken: %d site(s) may write to stdout/stderr: %s" % (len(off), [(o.get("func"), o.get("callee"), o.get("file"), o.get("line")) for o in off][:8]),
                      no_input=not ck.violations, match=dict(kind="static-sites"))
     ck.cov["rule"] = ("solve scripts over LP families x configurations with display on/off followed by rejected edits, accessor calls without solution, "
-                      "NULL arguments, unwritable targets, plus reads of missing / malformed LP and MPS files; all with a log handler installed and fd 1 / fd 2 "
+                      "NULL arguments, unwritable targets, plus reads of missing / malformed LP and MPS files, plus the same after QSexactClear / QSexactStart in the same process (handler registered once); all with a log handler installed and fd 1 / fd 2 "
                       "redirected to files; bytes are attributed to cases through size probes; non-trivial = one executed case; any byte is a violation")
     ck.cov["evaluations"] = ncases
     ck.cov["bytes_on_std_streams"] = total_bytes
     try:
-        ck.cov["static_sites"] = len(json.load(open(os.path.join(OUT, "sites.json"))))
+        ck.cov["static_sites"] = len(json.load(open(os.path.join(VERIF, "out", "sites.json"))))
     except Exception:
         pass
     ck.assumptions = ["translator tools/gen_sites.py (gcc -E + token scan) lists every stdio output call and every mention of stdout/stderr in the compiled library",
